@@ -67,7 +67,9 @@ Inductive event :=
                                               messages have arrived when a *client* polls (k = len+1: EOF too) *)
 | ECall (c : nat) (r : creq) (k : nat)     (* client c calls submit/result/status; k as above for the pre-drain *)
 | EFinish (w t : nat)                      (* worker w: Return of root task t -> RESULT(t, out t) upwards *)
-| EEmit (up : bool) (c tag : nat).         (* ordinary message put on FIFO (up, c) by its (live, open) sender *)
+| EEmit (up : bool) (c tag : nat)          (* ordinary message put on FIFO (up, c) by its (live, open) sender *)
+| EFail (w : nat).                         (* worker w: exception in runtime code (Worker._loop): ERROR(str) upwards,
+                                              _running = False, the process leaves start_worker and exits *)
 
 Definition upd {A} (f : nat -> A) (i : nat) (v : A) : nat -> A :=
   fun j => if Nat.eqb j i then v else f j.
@@ -229,7 +231,10 @@ Definition srv_result (m v : nat) (s : state) : state :=       (* handle_result,
 (* ---- receiving at a boss from below (FIFO up c, reader p = par c) --------------------- *)
 Definition server_from_employee (p c : nat) (m : option msg) (s : state) : state :=
   match m with
-  | None => shutdown p (set_pend s (upd (pend s) c false))     (* EOF: handle_disconnect => handle_shutdown *)
+  | None =>                                                    (* EOF: handle_disconnect => handle_shutdown *)
+    if attached then shutdown p s       (* AttachedServer.handle_disconnect: no unregister/close of that connection first,
+                                           so the SHUTDOWN broadcast is also written to the dead employee *)
+    else shutdown p (set_pend s (upd (pend s) c false))
   | Some MShutdown => shutdown p s
   | Some MSysErr => sys_error p s
   | Some (MResult t v) => srv_result t v s
@@ -297,9 +302,11 @@ Fixpoint crecv (arr : list msg) (eof : bool) (got : option msg) : cres :=
   | m :: r => crecv r eof (Some m)
   end.
 
-(* Compiler._recv_log_error_until_empty: true = drained without raising *)
-Fixpoint cdrain (arr : list msg) : bool :=
-  match arr with [] => true | MOrd _ :: r => cdrain r | _ => false end.
+(* Compiler._recv_log_error_until_empty: true = drained without raising.  An ERROR raises, anything that
+   is neither LOG nor ERROR is an 'Unexpected message type', and a LOG payload is the pickled bytes the server
+   forwarded, on which `payload.name` raises AttributeError: every arrived message makes the call fail. *)
+Definition cdrain (arr : list msg) : bool :=
+  match arr with [] => true | _ => false end.
 
 (* _send_recv's except branch: conn = None, close() *)
 Definition client_raise (c : nat) (s : state) : state :=
@@ -420,6 +427,9 @@ Definition step (s : state) (e : event) : option state :=
              then Some (set_budget (send_down s c (MOrd tag)) b) else None
     | 0 => None
     end
+  | EFail w =>
+    if (w <? N) && match kindof w with KWorker => true | _ => false end && alive s w
+    then Some (die w (send_up s w MSysErr)) else None
   end.
 
 Fixpoint run (s : state) (es : list event) : option state :=
